@@ -58,7 +58,7 @@ static void make_table() {
   g_table = new InterrogateUniqueNameDef[g_n + 1];
 }
 static std::string make_key() {
-  std::string k; k._n = nondet_size_t(); __CPROVER_assume(k._n <= std::string::CAP);
+  std::string k; k._trunc = false; k._n = nondet_size_t(); __CPROVER_assume(k._n <= std::string::CAP);
   for (size_t i = 0; i < std::string::CAP; i++) { char c = nondet_char(); k._d[i] = (i < k._n) ? c : (char)0; }
   k._d[std::string::CAP] = 0; return k;
 }
